@@ -34,7 +34,7 @@ theorem run_of_lands {s s' : St} {pre code : List Instr} {v : Val} (h : Seg s pr
   rfl
 
 theorem rel_initSt : Rel initSt Ref.initSt 0 := by
-  refine ⟨rfl, ?_, ?_, ?_, rfl, rfl, rfl, rfl⟩
+  refine ⟨⟨rfl, ?_, ?_, ?_, rfl, rfl⟩, rfl, rfl⟩
   · intro i x
     cases i with
     | zero => rfl
@@ -54,7 +54,7 @@ theorem Rel.loaded {s : St} {rs : Ref.St} (h : Rel s rs 0) (hs : AtRest s) (code
     simp only [List.getD_eq_getElem?_getD, List.getElem?_set_self hs.main, Option.getD_some]
     rfl
   have hcur := hs.cur
-  exact ⟨h.len, h.vars, h.nofn, h.chain, h.heap, rfl,
+  exact ⟨⟨h.len, h.vars, h.nofn, h.chain, h.heap, rfl⟩,
     by rw [hf]; have := h.fnpar; rw [hcur] at this; exact this,
     by rw [hf]; have := h.fnclo; rw [hcur] at this; exact this⟩
 
